@@ -220,7 +220,11 @@ fn format_timestamp_function(
     let dt = DateTime::from_timestamp(timestamp as i64, 0)
         .ok_or_else(|| tera::Error::msg("Invalid timestamp"))?
         .with_timezone(&Utc);
-    let formatted = dt.format(chrono_format).to_string();
+    // An unsupported specifier makes chrono's Display fail; report it instead of panicking in to_string()
+    use std::fmt::Write as _;
+    let mut formatted = String::new();
+    write!(formatted, "{}", dt.format(chrono_format))
+        .map_err(|_| tera::Error::msg(format!("Invalid timestamp format: '{format}'")))?;
 
     Ok(Value::String(formatted))
 }
